@@ -665,7 +665,7 @@ var obsTypes = []*Ty{
 	TArr(TInt), TArr(TString), TArr(TS), TArr(TArr(TInt)), TArr(TBool), TArr(TOpt(TInt)), TArr(TPath), TArr(TU64),
 	TDict(TString, TInt), TDict(TInt, TString), TDict(TString, TArr(TInt)), TDict(TString, TS),
 	TCArr(TInt, 3), TArr(TOpt(TString)), TArr(TOpt(TArr(TInt))),
-	TArr(TArr(TU64)), TDict(TString, TArr(TU64)),
+	TArr(TArr(TU64)), TDict(TString, TArr(TU64)), TDict(TU64, TString),
 }
 
 func mangle(t *Ty) string {
